@@ -707,6 +707,28 @@ class CallMixin:
         key = None
         if side == 'parse' and len(func.params) > 1 and func.params[1] == 'name':
             key = env.get('name')
+        if side == 'parse' and func.name == 'parse_numeric_array' and getattr(target, 'kind', None) == 'binary' and isinstance(key, str) and \
+                isinstance(env.get('item_num'), int) and not isinstance(env.get('item_num'), bool) and 2 <= env['item_num'] <= 8 and \
+                isinstance(env.get('item_size'), int) and not fr.in_loop:
+            # ``parse_numeric_array('a_and_b', 2, 1)`` with the count spelled out is ``parse_numeric('a_and_b[0]', 1); parse_numeric('a_and_b[1]', 1)``:
+            # the value under the name is the list of the two fields, so that ``a, b = parser['a_and_b']`` binds each to its own field
+            fields = []
+            for i in range(env['item_num']):
+                k_i = '%s[%d]' % (key, i)
+                env_i = {'name': k_i, 'size': env['item_size'], 'converter': env.get('converter')}
+                op_i = Op(target, side, 'parse_numeric', env_i, k_i, node, fr.func)
+                op_i.in_block = fr.block
+                op_i.index = len(target.ops)
+                target.ops.append(op_i)
+                fr.emit(op_i)
+                fields.append(FieldV(target, k_i, op_i))
+            target.keys[key] = ListV(fields, True)
+            target.deleted.discard(key)
+            if fr.cond_depth:
+                target.maybe.add(key)
+            else:
+                target.maybe.discard(key)
+            return None
         op = Op(target, side, func.name, env, key if isinstance(key, str) else None, node, fr.func)
         op.in_block = fr.block
         op.index = len(target.ops)
